@@ -72,6 +72,9 @@ class Optimizer(Logger, Citable):
         self._model_callback = None
         self._sigma_fraction = sigma_fraction
         self._fit_priors = {}
+        # Priors given explicitly through set_prior. Default priors are
+        # rebuilt from the current mode and bounds on every compile
+        self._user_priors = {}
         self.fitting_parameters = []
         self.fitting_priors = []
 
@@ -126,13 +129,15 @@ class Optimizer(Logger, Citable):
             _model_priors, \
             self.derived_parameters = \
             compile_params(self._model.fittingParameters,
-                           self._model.derivedParameters, self._fit_priors)
+                           self._model.derivedParameters,
+                           dict(self._user_priors))
 
-        self._fit_priors.update(_model_priors)
+        self._fit_priors = dict(_model_priors)
         obs_fit, obs_prior, _obs_priors, obs_deriv = \
             compile_params(
                 self._observed.fittingParameters,
-                self._observed.derivedParameters, self._fit_priors
+                self._observed.derivedParameters,
+                dict(self._user_priors)
             )
         self.fitting_parameters.extend(obs_fit)
         self.fitting_priors.extend(obs_prior)
@@ -226,7 +231,8 @@ class Optimizer(Logger, Citable):
 
         """
 
-        return [c[2]() if c[4] == 'linear' else math.log10(c[2]())
+        return [c[2]() if self._fit_priors[c[0]].priorMode is PriorMode.LINEAR
+                else math.log10(c[2]())
                 for c in self.fitting_parameters]
 
     @property
@@ -243,7 +249,7 @@ class Optimizer(Logger, Citable):
             ( ``bound_min`` , ``bound_max`` )
 
         """
-        return [c[-1] if c[4] == 'linear'
+        return [c[-1] if self._fit_priors[c[0]].priorMode is PriorMode.LINEAR
                 else (math.log10(c[-1][0]), math.log10(c[-1][1]))
                 for c in self.fitting_parameters]
 
@@ -385,7 +391,7 @@ class Optimizer(Logger, Citable):
 
     def disable_derived(self, parameter):
 
-        obj = self._model if parameter in self._model.fittingParameters \
+        obj = self._model if parameter in self._model.derivedParameters \
             else self._observed
 
         name, latex, fget, compute = \
@@ -490,6 +496,7 @@ class Optimizer(Logger, Citable):
             self.error('Fitting parameter %s does not exist', parameter)
             raise ValueError('Fitting parameter does not exist')
 
+        self._user_priors[parameter] = prior
         self._fit_priors[parameter] = prior
 
     def chisq_trans(self, fit_params, data, datastd):
